@@ -7,6 +7,7 @@ import glob
 import json
 import math
 import os
+import random
 from decimal import Decimal
 from fractions import Fraction
 
@@ -14,6 +15,7 @@ import numpy
 
 from .core import Driver, VERIF, frac
 from . import c01
+from . import c03_helpers as hp
 
 LEVEL_TEXT = ("Proof: for every list of events (any length, duplicates, any order) and every numbers of cells and bins, entry "
               "(i,k) of the modelled space-magnitude array is the number of events with cell i and bin k, its total is the "
@@ -22,7 +24,13 @@ LEVEL_TEXT = ("Proof: for every list of events (any length, duplicates, any orde
               "make space-magnitude gridding raise and are left uncounted by the magnitude histogram, and with a quadtree "
               "region the i-th location is paired with the i-th magnitude or the call is rejected (induction over the event "
               "list, kernel-checked). Tied to the code by a correspondence over random catalogs on Cartesian lattices and "
-              "quadtree grids.")
+              "quadtree grids. The remaining gridding code paths are inside the model as well: the quadtree helpers "
+              "_get_spatial_counts / _get_spatial_magnitude_counts (proved: they keep exactly the events at or above the "
+              "minimum edge and, when a latitude lies strictly beyond the bounding box, within its bounds (south inclusive, north exclusive); reject a catalog with a kept event in no cell (space-magnitude); filter "
+              "the caller's catalog in place; count every kept event once in its own cell and bin; equal the catalog-level "
+              "arrays when nothing is filtered), the _bin_catalog_* helpers (= the partition-based counts), get_mag_idx / "
+              "get_spatial_idx / dataframe columns (= the indices the count arrays use) and the bounding-box view "
+              "get_cartesian / spatial_counts(cartesian=True) (value of a cell at its own position, NaN elsewhere).")
 LEVEL_NOTE = ("Events enter the model after the two lookups (cell, bin); the lookups themselves are the exact ones of C01 / C02 "
               "and the generated coordinates and magnitudes avoid the round-off band below an edge (they are on an edge or "
               "well inside), so both the recount and the model are unambiguous.")
@@ -33,17 +41,44 @@ THEOREMS = ["Gridding.smc_ok_iff", "Gridding.smc_entry", "Gridding.smc_entry_pip
             "Gridding.occupancy_iff", "Gridding.magCount_eq_filter", "Gridding.smc_rejects_outside",
             "Gridding.smc_rejects_below_min", "Gridding.magCounts_ignores_below_min", "Gridding.quadtree_pairing",
             "Gridding.quadtree_counts", "Gridding.occupancy_entry", "Gridding.qtFind_eq_some_iff",
-            "Gridding.qtFind_eq_none_iff"]
+            "Gridding.qtFind_eq_none_iff",
+            # helper code paths (Properties/C03_Helpers.lean)
+            "Gridding.qt_filters_in_place", "Gridding.qt_kept_iff", "Gridding.qt_kept_sublist", "Gridding.qt_kept_count",
+            "Gridding.qt_kept_all", "Gridding.qt_sc_result", "Gridding.qt_sc_entry", "Gridding.qt_sc_total",
+            "Gridding.qt_sc_eq_catalog_level", "Gridding.qt_smc_located", "Gridding.qt_smc_entry",
+            "Gridding.qt_smc_eq_catalog_level", "Gridding.qt_smc_rejects_unlocated", "Gridding.qt_smc_rejects_single_unlocated",
+            "Gridding.qt_smc_ok_iff", "Gridding.qt_smc_never_shape_error", "Gridding.qt_smc_eq_smcQuad_of_kept", "Gridding.qt_kept_has_bin", "Gridding.qt_bbox_contains_tiles",
+            "Gridding.qt_beyond_bounds_unlocated", "Gridding.qt_bound_event_kept_iff",
+            "Gridding.bin_catalog_spatial_counts_eq", "Gridding.bin_catalog_probability_eq",
+            "Gridding.bin_catalog_agree_catalog_level", "Gridding.bin_catalog_smc_eq", "Gridding.bin_catalog_smc_partition",
+            "Gridding.bin_catalog_smc_agree", "Gridding.spatial_idx_cart_eq", "Gridding.spatial_idx_counts_cart",
+            "Gridding.mag_idx_counts", "Gridding.df_columns_cart_ok_iff", "Gridding.df_groupby_eq_counts_cart",
+            "Gridding.df_columns_quad_ok_iff", "Gridding.cartesian_places_cell", "Gridding.cartesian_nan_iff",
+            "Gridding.gridded_cartesian_entry", "Gridding.marked_cartesian_entry"]
 TRUSTED = ["Lean 4.33 kernel", "axioms: propext, Classical.choice, Quot.sound at most",
            "numpy.add.at(out, idx, 1) adds one per occurrence; out[idx] = 1 sets (modelled as folds over the index list)",
            "region and magnitude lookups are the exact ones away from the round-off band (properties C01 / C02 / C17)",
-           "harness/c03.py generators, exact recount and comparison; driver parsing (Proto.lean)"]
+           "numpy.add.at with a pair of index arrays broadcasts them (modelled: equal lengths pairwise, a length-1 array "
+           "repeated, IndexError otherwise); pandas rejects a column of the wrong length; float(str(x)) == x for the bounds "
+           "and the minimum edge the quadtree helpers print into their filter statements",
+           "harness/c03.py, harness/c03_helpers.py generators, exact recount and comparison; driver parsing (Proto.lean)"]
 RULE = ("catalogs of 0..400 events (duplicates, events on cell corners / edges and on magnitude edges, controlled fraction "
         "outside the region / in holes / below the minimum magnitude, shuffled) on Cartesian lattices (holes, masks, 1xn, "
         "single cell) and quadtree grids (single resolution zoom 1-3, random multi-resolution quadkey sets with gaps); "
         "magnitude grids regular with 1..30 edges, explicit mag_bins (list / ndarray) and region-bound; a case is one "
         "(region, magnitude grid, catalog); non-trivial when the catalog has a duplicate, an edge event, an outside or a "
-        "below-minimum event; distinct by (region, edges, event list)")
+        "below-minimum event; distinct by (region, edges, event list). Helper paths: 30 % of those cases also drive the "
+        "_bin_catalog_* helpers, get_spatial_idx / get_mag_idx and the dataframe columns (with and without bound magnitude "
+        "bins); quadtree-helper cases (single resolution zoom 1-3, complete multi-resolution refinements, key sets with "
+        "gaps; events exactly on the south / north / west / east bound of the grid, one ulp inside / outside the latitude "
+        "bounds, beyond them, longitudes 180 / 181 / -181; magnitudes exactly at, one ulp below and below the minimum "
+        "edge; catalogs in which nothing / something / everything is filtered, empty catalogs); bounding-box views of "
+        "gridded forecasts on Cartesian lattices. Input classes listed in c03_helpers.EXCLUDED_INPUT_CLASSES (argument handling of the private helpers) are not generated. "
+        "Call sequences: 500 (5000 thorough) sequences of 4-9 gridding calls on ONE catalog object bound to ONE region object "
+        "(explicit bins A, region-bound, explicit bins B, region-bound again ...; spatial_magnitude_counts, magnitude_counts, "
+        "get_mag_idx, spatial_counts, spatial_event_probability, to_dataframe), every step compared with the exact recount "
+        "for the bins that step must use, the bins bound to the region unchanged afterwards")
+
 
 
 # ----------------------------------------------------------------------------------------------- generators
@@ -239,7 +274,8 @@ def quad_cell_of(bounds):
 
 
 # ----------------------------------------------------------------------------------------------- one case
-def check_case(run, drv, pending, case, region, kind, cell_of, ncell, edges, evs, mode, cart_args=None):
+def check_case(run, drv, pending, case, region, kind, cell_of, ncell, edges, evs, mode, cart_args=None, helpers=None,
+               poly_cells=None):
     mag_bins = None if mode == "bound" else (list(map(float, edges)) if mode == "list" else numpy.asarray(edges, dtype=float))
     base = dict(case)
     try:
@@ -300,6 +336,12 @@ def check_case(run, drv, pending, case, region, kind, cell_of, ncell, edges, evs
         q = drv.ask(" ".join(["c03_quad"] + [",".join(frac(v) for v in b[:, c]) for c in range(4)] + [lons, lats, mags, ed]))
     q2 = drv.ask(f"c03_filter {ed} {mags}")
     pending.append((base, q, q2, got, fl))
+    if helpers is not None:
+        hdrv, hpend = helpers
+        if kind == "cart":
+            hp.check_cart_helpers(run, hdrv, hpend, base, region, poly_cells, cell_of, edges, evs, cart_args)
+        else:
+            hp.check_quad_idx(run, hdrv, hpend, base, region, cell_of, edges, evs)
 
 
 def _parse(tok):
@@ -315,6 +357,19 @@ def _parse(tok):
 
 def flush(run, drv, pending):
     out = drv.run()
+    seqs = [p for p in pending if p[0] == "seq"]
+    pending[:] = [p for p in pending if p[0] != "seq"]
+    for _, case, qs, results in seqs:
+        models = {}
+        for k, q in qs.items():
+            toks = out[q].split(" ")
+            models[k] = dict(zip(("sc", "sep", "mc", "smc"), (_parse(t) for t in toks))) if len(toks) == 4 else None
+        for step, (op, k, got) in enumerate(results):
+            if op not in ("sc", "sep", "mc", "smc"):
+                continue
+            m = models.get(k)
+            if m is None or (m[op] != got and not (m[op] == [] and got == [])):
+                run.mismatch(dict(case, failed_step=step, op=op), str(got)[:200], out[qs[k]][:400])
     for base, q, q2, got, fl in pending:
         toks = out[q].split(" ")
         if len(toks) != 4:
@@ -339,13 +394,15 @@ def cart_args_of(region, cells, flags):
             ",".join(str(i) for i, _ in cells), ",".join(str(j) for _, j in cells), ",".join(str(f) for f in flags)]
 
 
-def one_random_case(run, drv, pending, rng, tier, spec_override=None):
+def one_random_case(run, drv, pending, rng, tier, spec_override=None, helpers=None):
     start, step, nb = gen_edges(rng)
     edges = edges_array(start, step, nb, rng.choice(["library", "explicit"]))
     mode = rng.choice(["bound", "list", "ndarray"])
     n = rng.choice([0, 1, 2, 3, 5, 10, 30, 100, 400 if tier == "thorough" else 200])
     frac_out = rng.choice([0.0, 0.0, 0.0, 0.02, 0.3])
     frac_below = rng.choice([0.0, 0.0, 0.0, 0.02, 0.3])
+    if helpers is not None and not (n <= 100 and rng.random() < 0.3):
+        helpers = None
     if rng.random() < 0.6:
         spec = c01._spec_cells_tuple(spec_override or c01.gen_lattice(rng, "quick"))
         region, cells, flags = c01.build_region(spec)
@@ -368,7 +425,7 @@ def one_random_case(run, drv, pending, rng, tier, spec_override=None):
         case = dict(kind="cart", region=spec, edges=[repr(float(x)) for x in edges], mode=mode,
                     events=[[repr(a), repr(b), repr(c)] for a, b, c in evs], rid=hash(c01.region_key(spec)))
         check_case(run, drv, pending, case, region, "cart", cell_of, len(cells), edges, evs, mode,
-                   cart_args_of(region, cells, flags))
+                   cart_args_of(region, cells, flags), helpers=helpers, poly_cells=cells)
     else:
         # bound magnitudes: the grid itself, another grid (explicit mag_bins must win), or none at all (D22)
         bound = edges if mode == "bound" else rng.choice([edges, numpy.array([1.0, 2.0]), None, None])
@@ -380,10 +437,11 @@ def one_random_case(run, drv, pending, rng, tier, spec_override=None):
         keys = [str(k) for k in region.quadkeys]
         case = dict(kind="quad", quadkeys=keys, edges=[repr(float(x)) for x in edges], mode=mode, unbound=bound is None,
                     events=[[repr(a), repr(b), repr(c)] for a, b, c in evs], rid=hash(tuple(keys)))
-        check_case(run, drv, pending, case, region, "quad", quad_cell_of(region.bounds), len(keys), edges, evs, mode)
+        check_case(run, drv, pending, case, region, "quad", quad_cell_of(region.bounds), len(keys), edges, evs, mode,
+                   helpers=helpers)
 
 
-def run_stored(run, drv, pending, case):
+def run_stored(run, drv, pending, case, helpers=None):
     edges = numpy.array([float(x) for x in case["edges"]])
     evs = [(float(a), float(b), float(c)) for a, b, c in case["events"]]
     mode = case.get("mode", "ndarray")
@@ -397,12 +455,140 @@ def run_stored(run, drv, pending, case):
             a = orc.at(orc.ax.exact(lon, Fraction(lon)), orc.ay.exact(lat, Fraction(lat)))
             return None if a == "o" else a
         check_case(run, drv, pending, dict(case, rid=0), region, "cart", cell_of, len(cells), edges, evs, mode,
-                   cart_args_of(region, cells, flags))
+                   cart_args_of(region, cells, flags), helpers=helpers, poly_cells=cells)
     else:
         from csep.core.regions import QuadtreeGrid2D
         region = QuadtreeGrid2D.from_quadkeys(list(case["quadkeys"]), magnitudes=None if case.get("unbound") else edges)
         check_case(run, drv, pending, dict(case, rid=0), region, "quad", quad_cell_of(region.bounds),
-                   len(case["quadkeys"]), edges, evs, mode)
+                   len(case["quadkeys"]), edges, evs, mode, helpers=helpers)
+
+
+# ----------------------------------------------------------------------------------------------- call sequences
+SEQ_OPS = ["smc", "mc", "midx", "sc", "sep", "df"]
+
+
+def gen_seq_case(rng, tier):
+    """a short SEQUENCE of gridding calls on ONE catalog object bound to ONE region object: explicit bins A, region-bound,
+    explicit bins B, region-bound again ... — what a region-bound call grids against must not depend on earlier calls"""
+    grids = []
+    while len(grids) < 3:
+        start, step, nb = gen_edges(rng)
+        e = [float(x) for x in edges_array(start, step, nb, rng.choice(["library", "explicit"]))]
+        if e not in grids:
+            grids.append(e)
+    n = rng.choice([1, 2, 3, 5, 10, 30, 60])
+    frac_out = rng.choice([0.0, 0.0, 0.0, 0.1])
+    frac_below = rng.choice([0.0, 0.0, 0.1])
+    if rng.random() < 0.6:
+        spec = c01._spec_cells_tuple(c01.gen_lattice(rng, "quick"))
+        region, cells, flags = c01.build_region(spec)
+        orc = c01.Oracle(region, cells, flags)
+        locs = gen_events_cart(rng, region, orc, n, frac_out)
+        locs = [p for p in locs if not (orc.ax.allowed(p[0])[2] or orc.ay.allowed(p[1])[2])]
+        if orc.ax.n == 1:
+            locs = [p for p in locs if Fraction(p[0]) < orc.ax.top]
+        if orc.ay.n == 1:
+            locs = [p for p in locs if Fraction(p[1]) < orc.ay.top]
+        where = dict(kind="seq", rkind="cart", region=spec)
+    else:
+        region, _ = quad_region(rng, None)
+        locs = gen_events_quad(rng, region, n, frac_out)
+        where = dict(kind="seq", rkind="quad", quadkeys=[str(k) for k in region.quadkeys])
+    # magnitudes on / between the edges of a randomly chosen grid, so that the three grids bin them differently
+    alledges = sorted(set(x for e in grids for x in e))
+
+    def clear(m):      # on an edge, or far from every edge of every grid: no grid has it in its round-off band
+        return all(m == x or abs(m - x) > 1e-6 for x in alledges)
+    mags = []
+    for _ in locs:
+        m = gen_mags(rng, rng.choice(grids), 1, frac_below)[0]
+        for _try in range(20):
+            if clear(m):
+                break
+            m = gen_mags(rng, rng.choice(grids), 1, frac_below)[0]
+        else:
+            m = float(max(alledges) + 1.0)
+        mags.append(m)
+    ops = []
+    for _ in range(rng.randint(3, 8)):
+        op = rng.choice(["smc", "smc", "smc", "mc", "mc", "midx", "sc", "sep", "df"])
+        g = rng.choice([None, None, 1, 2, 0]) if op in ("smc", "mc") else None    # None = region-bound, k = explicit grids[k]
+        ops.append([op, g, rng.choice(["list", "ndarray"])])
+    ops.append([rng.choice(["smc", "mc", "midx"]), None, "list"])                  # always end with a region-bound call
+    return dict(where, grids=[[repr(x) for x in e] for e in grids], ops=ops,
+                events=[[repr(p[0]), repr(p[1]), repr(m)] for p, m in zip(locs, mags)])
+
+
+def seq_case(run, drv, pending, case):
+    grids = [[float(x) for x in e] for e in case["grids"]]
+    evs = [(float(a), float(b), float(c)) for a, b, c in case["events"]]
+    n = len(evs)
+    if case["rkind"] == "cart":
+        spec = c01._spec_cells_tuple(case["region"])
+        region, cells, flags = c01.build_region(spec)
+        orc = c01.Oracle(region, cells, flags)
+
+        def cell_of(lon, lat):
+            a = orc.at(orc.ax.exact(lon, Fraction(lon)), orc.ay.exact(lat, Fraction(lat)))
+            return None if a == "o" else a
+        ncell, cart = len(cells), True
+        rargs = cart_args_of(region, cells, flags)
+    else:
+        from csep.core.regions import QuadtreeGrid2D
+        region = QuadtreeGrid2D.from_quadkeys(list(case["quadkeys"]))
+        cell_of = quad_cell_of(region.bounds)
+        ncell, cart = len(case["quadkeys"]), False
+        b = numpy.asarray(region.bounds, dtype=float)
+        rargs = [",".join(frac(v) for v in b[:, c]) for c in range(4)]
+    region.magnitudes = numpy.array(grids[0])          # the grid the region is built with
+    cat = _cat(region, evs)                            # ONE catalog object, ONE region object for the whole sequence
+    exp = {k: recount(ncell, cell_of, grids[k], evs, cart) for k in range(3)}
+    cells_ev = exp[0][4]
+    anyout = any(c is None for c in cells_ev)
+    run.case(case if run.evaluations < 4 else None, ("seq", json.dumps(case, sort_keys=True, default=str)))
+    run.count("sequence")
+    results = []
+    for step, (op, g, how) in enumerate(case["ops"]):
+        k = 0 if g is None else g
+        kw = {} if g is None else dict(mag_bins=list(grids[g]) if how == "list" else numpy.array(grids[g]))
+        e_sc, e_sep, e_mc, e_smc, _, bins = exp[k]
+        if op == "smc":
+            got, want = _call(lambda: cat.spatial_magnitude_counts(**kw)), e_smc
+        elif op == "mc":
+            got, want = _call(lambda: cat.magnitude_counts(**kw)), e_mc
+        elif op == "midx":
+            got, want = _call(lambda: cat.get_mag_idx()), [-1 if x is None else x for x in exp[0][5]]
+        elif op == "sc":
+            got, want = _call(lambda: cat.spatial_counts()), e_sc
+        elif op == "sep":
+            got, want = _call(lambda: cat.spatial_event_probability()), e_sep
+        else:
+            def cols():
+                df = cat.to_dataframe()
+                return numpy.column_stack((df['region_id'].to_numpy(), df['mag_id'].to_numpy())) if n else numpy.zeros((0, 2))
+            got = _call(cols)
+            if isinstance(got, str) and got.startswith("EXC:") and (n == 0 or anyout) and not cart:
+                got = "E"          # quadtree: AttributeError on an empty catalog; pandas' ValueError is already "E"
+            want = "E" if ((anyout and n > 0) or (not cart and n == 0)) else \
+                [[c, -1 if x is None else x] for c, x in zip(cells_ev, exp[0][5])]
+        run.count(f"sequence:{op}:{'bound' if g is None else 'explicit'}")
+        results.append((op, k, got))
+        if got != want:
+            prev = [f"{o}({'bound' if gg is None else 'grid ' + str(gg)})" for o, gg, _ in case["ops"][:step]]
+            run.oracle_failure(dict(case, failed_step=step),
+                               f"step {step} {op}({'region-bound' if g is None else 'explicit grid ' + str(g)}) after {prev} = "
+                               f"{str(got)[:160]}, exact recount with the {'bound' if g is None else 'given'} bins {str(want)[:160]}")
+    if not numpy.array_equal(numpy.asarray(region.magnitudes, dtype=float), numpy.array(grids[0])):
+        run.oracle_failure(case, "the magnitude bins bound to the region object were changed by the call sequence")
+    # model: the same arrays for every grid used
+    lons = ",".join(frac(ev[0]) for ev in evs) if evs else "-"
+    lats = ",".join(frac(ev[1]) for ev in evs) if evs else "-"
+    mags = ",".join(frac(ev[2]) for ev in evs) if evs else "-"
+    qs = {}
+    for k in sorted(set(k for _, k, _ in results)):
+        ed = ",".join(frac(x) for x in grids[k])
+        qs[k] = drv.ask(" ".join(["c03_cart" if cart else "c03_quad"] + rargs + [lons, lats, mags, ed]))
+    pending.append(("seq", case, qs, results))
 
 
 def band_case(run, case):
@@ -460,23 +646,60 @@ def gen_band_case(rng):
 
 def run(run, rng, tier):
     drv, pending = Driver(), []
+    hdrv, hpend = Driver(), []
+    run.extra["excluded_input_classes"] = [w["id"] + ": " + w["where"] + " — " + w["why"] for w in hp.EXCLUDED_INPUT_CLASSES]
     for k in range(150 if tier == "quick" else 1500):
         band_case(run, gen_band_case(rng))
     for path in sorted(glob.glob(os.path.join(VERIF, "corpus", "C03", "*.json"))):
-        run_stored(run, drv, pending, json.load(open(path)))
+        c = json.load(open(path))
+        if c.get("kind") == "seq":
+            seq_case(run, drv, pending, c)
+        elif c.get("kind") in hp.KINDS:
+            (hp.check_qthelper if c["kind"] == "qthelper" else hp.check_cartview)(run, hdrv, hpend, c)
+        else:
+            run_stored(run, drv, pending, c, helpers=(hdrv, hpend))
         run.count("corpus")
-    ncase = 4000 if tier == "quick" else 30000
-    for k in range(ncase):
-        one_random_case(run, drv, pending, rng, tier)
+    # helper code paths: quadtree helpers (boundary-directed), bounding-box views
+    hrng = random.Random(rng.randrange(2 ** 62))
+    for k in range(900 if tier == "quick" else 8000):
+        hp.check_qthelper(run, hdrv, hpend, hp.gen_qthelper(hrng, tier))
+        if len(hpend) >= 80:
+            hp.flush(run, hdrv, hpend)
+    for k in range(120 if tier == "quick" else 1200):
+        hp.check_cartview(run, hdrv, hpend, hp.gen_cartview(hrng, tier))
+        if len(hpend) >= 80:
+            hp.flush(run, hdrv, hpend)
+    hp.flush(run, hdrv, hpend)
+    srng = random.Random(rng.randrange(2 ** 62))
+    for k in range(500 if tier == "quick" else 5000):
+        seq_case(run, drv, pending, gen_seq_case(srng, tier))
         if len(pending) >= 60:
             flush(run, drv, pending)
     flush(run, drv, pending)
+    ncase = 4000 if tier == "quick" else 30000
+    for k in range(ncase):
+        one_random_case(run, drv, pending, rng, tier, helpers=(hdrv, hpend))
+        if len(pending) >= 60:
+            flush(run, drv, pending)
+            hp.flush(run, hdrv, hpend)
+    flush(run, drv, pending)
+    hp.flush(run, hdrv, hpend)
 
 
 def replay(run, payload):
     if payload["case"].get("kind") == "band":
         band_case(run, payload["case"])
         return
+    if payload["case"].get("kind") in hp.KINDS:
+        hp.replay(run, payload["case"])
+        return
+    if payload["case"].get("kind") == "seq":
+        drv, pending = Driver(), []
+        seq_case(run, drv, pending, payload["case"])
+        flush(run, drv, pending)
+        return
     drv, pending = Driver(), []
-    run_stored(run, drv, pending, payload["case"])
+    hdrv, hpend = Driver(), []
+    run_stored(run, drv, pending, payload["case"], helpers=(hdrv, hpend))
     flush(run, drv, pending)
+    hp.flush(run, hdrv, hpend)
